@@ -5,7 +5,7 @@
    [valid_image] (Model/Valid.v) is the independent reader.  [file_start]/[file_starts]/[end_of] are
    the offsets the file loop of Assemble (Ffs.place_files) gives to the files of a volume. *)
 From Fiano Require Import Base.Bytes Gen.Consts Model.Ffs Model.FfsGrammar Model.Edit Model.Valid Model.ValidInv
-  Proofs.FfsGrammarProofs Proofs.EditProofs Proofs.AsmProofs Proofs.ValidProofs Proofs.ValidTreeProofs Proofs.ValidFlatProofs.
+  Proofs.FfsGrammarProofs Proofs.EditProofs Proofs.AsmProofs Proofs.ValidProofs Proofs.ValidTreeProofs Proofs.ValidFlatProofs Proofs.Ffs3FlagProofs.
 Open Scope Z_scope.
 
 (* ---- same total size; an error writes nothing ---- *)
@@ -131,6 +131,23 @@ Proof.
   apply gsh_v_sec0; auto. unfold gd_wf. rewrite Hg. exact I.
 Qed.
 Print Assumptions C02_section_header_threshold.
+
+(* the file-system GUID of a rebuilt volume.  Assemble's "use FFSv3" flag is per volume: children
+   start with the flag cleared, a file that is rebuilt in the large form ([rebuilt_large x x']: the
+   node x has sections or an NVAR store and its assembled form x' carries the large attribute)
+   raises it, and nothing clears it before the volume is written - in particular not a nested
+   volume among the files that follow, which works on its own flag and hands the enclosing
+   volume's back.  So a rebuilt non-resizable volume that carried the FFSv2 GUID and holds such a
+   file, at whatever position, is written with the FFSv3 GUID; and the flag of the caller (an
+   enclosing volume) comes back unchanged.  (Implementation side: oracle p_c02_ffs3 and FFS3Rule.) *)
+Theorem C02_large_file_makes_ffs3 : forall enc s2u h vb kids st h' b kids' st',
+  asm enc s2u (NVol h vb kids) st = Ok (NVol h' b kids', st') ->
+  v_resizable h = false -> vhdr_inb h vb = true -> vol_verbatim h kids' = false ->
+  bytes_eqb (v_guid h) FFS2 = true ->
+  (exists i x x', nth_error kids i = Some x /\ nth_error kids' i = Some x' /\ rebuilt_large x x' = true) ->
+  sub 16 16 b = FFS3 /\ snd st' = snd st.
+Proof. exact large_file_makes_ffs3. Qed.
+Print Assumptions C02_large_file_makes_ffs3.
 
 (* the 16-bit sum of a rebuilt volume's header is zero *)
 Theorem C02_volume_header_checksum : forall pol ffs3 h buf files h' b,
